@@ -678,3 +678,127 @@ def run_reader(ctx):
             if _canon_model(ans + " ").strip() != impl:
                 ctx.disagree("mp4 ilst reader", case, model=ans[:300], impl=impl[:300])
     return len(reqs)
+
+
+# ---------------------------------------------------------------------------------------------------------------------
+# the order of the items in the ilst `save` writes: `_item_sort_key` against `Mp4R.sortItems` (Model/Container/Mp4Reader.lean)
+
+def run_order(ctx):
+    """random tag dictionaries (keys of the `order` list of `_item_sort_key` and others, values whose reprs tie in length and
+    content, every insertion order): `sorted(tags.items(), key=_item_sort_key)` of the real module against the model's
+    stable sort on (key, repr(value)); and the children of the ilst atom a real save writes are in that order."""
+    from mutagen.mp4 import MP4, MP4Cover, MP4FreeForm, _item_sort_key
+    rng = ctx.rng
+    keys = ["\xa9nam", "\xa9ART", "\xa9wrt", "\xa9alb", "\xa9gen", "trkn", "disk", "\xa9day", "cpil", "pgap", "tmpo", "\xa9too",
+            "----:com.apple.iTunes:X", "----:a:b", "covr", "\xa9lyr", "desc", "aART", "soal", "purl", "\xa9cmt", "tvsh", "stik", "zzzz"]
+    reqs = []
+    for i in range(ctx.budget(300, 4000)):
+        ks = rng.sample(keys, rng.choice([1, 2, 3, 5, 8, 12]))
+        d = {}
+        for k in ks:
+            if k in ("trkn", "disk"):
+                v = [(rng.choice([1, 2, 10]), rng.choice([0, 9]))]
+            elif k in ("cpil", "pgap"):
+                v = rng.choice([True, False])
+            elif k in ("tmpo", "stik"):
+                v = [rng.choice([1, 7, 120])]
+            elif k == "covr":
+                v = [MP4Cover(rng.choice([b"a", b"bb"]), rng.choice([13, 14]))]
+            elif k.startswith("----"):
+                v = [MP4FreeForm(rng.choice([b"v", b"ww"]))]
+            else:
+                v = [rng.choice(["a", "b", "ab", "\xe9", "x" * 3, "a'b"])] * rng.choice([1, 1, 2])
+            d[k] = v
+        order = [k for k, v in sorted(d.items(), key=lambda kv: _item_sort_key(*kv))]
+        arg = ",".join("%s:%s" % (k.encode("latin-1").hex(), repr(v).encode("utf-8").hex()) for k, v in d.items())
+        case = {"dict": {k: repr(v) for k, v in d.items()}}
+        ctx.case(key=("mp4order", i), nontrivial=len(ks) > 1, modelled=True)
+        reqs.append(("mp4 op=sortkeys items=%s" % arg, "ok order=" + ",".join(k.encode("latin-1").hex() for k in order), case))
+        if i % 10 == 0:
+            # the real save writes the children in this order
+            m = MP4(io.BytesIO(GOOD)); m.tags.clear()
+            for k, v in d.items():
+                m.tags[k] = v
+            f = io.BytesIO(GOOD); m.save(f)
+            names = [a.name for a in __import__("mutagen.mp4._atom", fromlist=["Atoms"]).Atoms(io.BytesIO(f.getvalue()))[b"moov", b"udta", b"meta", b"ilst"].children]
+            want = [k.encode("latin-1")[:4] for k in order]
+            if names != want:
+                ctx.violation("mp4file:order:ilst-children", "the ilst children are not in _item_sort_key order", case)
+    if ctx.model_ok() and reqs:
+        for (line, impl, case), ans in zip(reqs, ctx.driver.ask([r[0] for r in reqs])):
+            if ans.startswith("bad-op"):
+                ctx.hist["model:not-wired"] += 1; continue
+            ctx.traces_validated += 1
+            if ans != impl:
+                ctx.disagree("mp4 item order", case, model=ans[:300], impl=impl[:300])
+    return len(reqs)
+
+
+def run_full_faults(ctx):
+    """`MP4Tags.save` with its reads (`saveFullEntryM`): an IOError at EVERY file-object call behind loadfile's four probes —
+    the calls of `Atoms(fileobj)` included — and short reads at every read: real mutagen on `FaultFile` against the model:
+    outcome class, bytes left, and (clean run) the whole call log.  Returns the number of comparisons."""
+    from fobj import FaultFile
+    rng = ctx.rng
+    reqs = []
+    nfiles = ctx.budget(40, 400)
+    tried = 0
+    while nfiles > 0 and tried < 20000:
+        tried += 1
+        data, label = gen_file(rng)
+        if len(data) > 600 or "deep" in label:
+            continue
+        kind = rng.choice(["delete", "save", "save"])
+        tags, ilst, pad, padf = _tags_for(kind, rng)
+        base = {"layout": label, "op": kind, "pad": pad, "data": hx(data)}
+        ref = FaultFile(data)
+        k0, r0 = timed(lambda: tags.save(ref, padding=padf), 20)
+        if k0 == "hang":
+            ctx.violation("mp4file:full-faults:hang", "did not finish", base); continue
+        ref_log = list(ref.log)
+        # loadfile's probes (read(0), write(0)) come first; Atoms(fileobj) starts with seek(0, 2)
+        if "e" not in ref_log or any(c not in ("r0", "w0") for c in ref_log[:ref_log.index("e")]):
+            continue
+        n0 = ref_log.index("e")
+        tail = ref_log[n0:]
+        st0 = "ok" if k0 == "ok" else classify(r0)
+        line0 = "mp4 op=mf data=%s ilst=%s pad=%s" % (hx(data), hx(ilst), pad)
+        nfiles -= 1
+        reqs.append((line0, (st0, ref.getvalue(), tail), dict(base, fault="none")))
+        plans = [("io", j, None) for j in (range(len(tail)) if len(tail) <= ctx.budget(150, 1500) else sorted(rng.sample(range(len(tail)), 100)))]
+        for j, c in enumerate(tail):
+            if c.startswith("r") and c[1:].isdigit() and int(c[1:]) > 0:
+                for k in sorted({0, 1, int(c[1:]) // 2}):
+                    if k < int(c[1:]):
+                        plans.append(("short", j, k))
+        if len(plans) > ctx.budget(120, 3000):
+            plans = rng.sample(plans, ctx.budget(120, 3000))
+        for what, a, b in plans:
+            if what == "io":
+                f = FaultFile(data, fail_at=n0 + a); arg = " fail=%d:io" % a
+            else:
+                f = FaultFile(data, short=(n0 + a, b)); arg = " short=%d:%d" % (a, b)
+            k, r = timed(lambda: tags.save(f, padding=padf), 20)
+            case = dict(base, fault=what, index=a, short_to=b)
+            if k == "hang":
+                ctx.violation("mp4file:full-faults:hang", "did not finish", case); continue
+            st = "ok" if k == "ok" else classify(r)
+            ctx.case(key=("mp4full", label, kind, what, a, b, len(data)), nontrivial=True, modelled=True)
+            ctx.hist["mp4full:%s:%s" % (what, st)] += 1
+            if st not in ("ok", "err:mutagen"):
+                ctx.violation("mp4file:full-faults:%s:%s" % (what, type(r).__name__), "%s escaped: %s" % (type(r).__name__, str(r)[:80]), case)
+            reqs.append((line0 + arg, (st, f.getvalue(), None), case))
+    if ctx.model_ok() and reqs:
+        for (line, (st, after, tail), case), ans in zip(reqs, ctx.driver.ask([r[0] for r in reqs])):
+            if ans.startswith("bad-op"):
+                ctx.hist["model:not-wired"] += 1; continue
+            ctx.traces_validated += 1
+            mst, mf = parse_fields(ans)
+            if mst != st or unhx(mf.get("data", "-")) != after:
+                ctx.disagree("mp4 save with reads (%s)" % case.get("fault"), case, model=("%s data=%s" % (mst, mf.get("data", "")))[:240],
+                             impl=("%s data=%s" % (st, hx(after)))[:240])
+            elif tail is not None:
+                mlog = [] if mf.get("log", "-") == "-" else mf["log"].split(",")
+                if mlog != tail:
+                    ctx.disagree("mp4 save with reads: order of the file-object calls", case, model=",".join(mlog)[:300], impl=",".join(tail)[:300])
+    return len(reqs)
